@@ -5,4 +5,4 @@ From V.c02 Require Import C02AggModel.
 Require Import ExtrOcamlBasic.
 Separate Extraction
   nat sample trun tfhd tfdt mdat obox tchild mchild afrag aseg fchild afile aop aout
-  afrag_step aseg_step ainit_step afile_step run_hist.
+  afrag_step aseg_step ainit_step afile_step run_hist ob_wf afile_seg_mode.
